@@ -24,7 +24,7 @@ func GenerateScalarSubSetRule(containsAll profile.ScalarSetRule, iriExpander *mi
 		"    mapped := as_string(original)\n}\n" // cast value to string for matching with argument value
 	rego = append(rego, fmt.Sprintf(rego_convert_to_string_set, actualValuesVariable, actualValuesVariable))
 
-	rego = append(rego, fmt.Sprintf("%s = { %s}", containsAllVariable, regoStringList(containsAll.Argument)))
+	rego = append(rego, fmt.Sprintf("%s = %s", containsAllVariable, regoStringSet(containsAll.Argument)))
 
 	// assert that all containsAll are contained in actualValues
 	if containsAll.Negated {
